@@ -19,6 +19,8 @@ import (
 //	paren     (e)            around one argument expression of a directive
 //	comment   /*m*/ e        before one argument expression
 //	alias     import x "p"   an import gets an explicit name, all uses are renamed
+//	dotimport import . "p"   an import other than cff becomes a dot import, its qualifiers are dropped
+//	dupimport import p "p"; import p_y "p"   a package other than cff is imported a second time under another name; every second use goes through the new name
 //	block     { stmt }       the statement holding a directive is wrapped (plain block / for{} / switch{default:})
 //	closure   func() error { return cff.Flow(...) }()
 //	extract   f := func...   a function-literal argument is first stored in a local variable
@@ -31,7 +33,7 @@ type Mut struct {
 	Arg  int    `json:"arg,omitempty"`
 }
 
-var mutOps = []string{"paren", "comment", "alias", "block", "closure", "extract", "dupfunc", "reorder", "header"}
+var mutOps = []string{"paren", "comment", "alias", "dotimport", "dupimport", "block", "closure", "extract", "dupfunc", "reorder", "header"}
 
 // freeOps rewrite an option so that it is still type-correct Go but no longer
 // has the literal shape cff documents (an option held in a variable, spread
@@ -100,6 +102,17 @@ func parseForMut(src []byte) (*fileInfo, error) {
 }
 
 func (fi *fileInfo) off(p token.Pos) int { return fi.fset.Position(p).Offset }
+
+// importsUngrouped reports whether the import declarations are written
+// without parentheses (import "a" / import "b").
+func (fi *fileInfo) importsUngrouped() bool {
+	for _, d := range fi.f.Decls {
+		if gd, ok := d.(*ast.GenDecl); ok && gd.Tok == token.IMPORT {
+			return !gd.Lparen.IsValid()
+		}
+	}
+	return false
+}
 func (fi *fileInfo) text(n ast.Node) string {
 	return string(fi.src[fi.off(n.Pos()):fi.off(n.End())])
 }
@@ -203,7 +216,7 @@ func ApplyMut(src []byte, m Mut) (out []byte, label string, ok bool) {
 		return src, "", false
 	}
 	ds := fi.directives()
-	if len(ds) == 0 && m.Op != "header" && m.Op != "alias" {
+	if len(ds) == 0 && m.Op != "header" && m.Op != "alias" && m.Op != "dotimport" && m.Op != "dupimport" {
 		return src, "", false
 	}
 	pick := func(n int) int { return ((m.Site % n) + n) % n }
@@ -245,6 +258,76 @@ func ApplyMut(src []byte, m Mut) (out []byte, label string, ok bool) {
 			return true
 		})
 		return applyEdits(src, eds), "alias:" + base, true
+	case "dupimport":
+		type cand struct {
+			im   *ast.ImportSpec
+			uses []*ast.Ident
+		}
+		var cands []cand
+		for _, im := range fi.f.Imports {
+			p := strings.Trim(im.Path.Value, `"`)
+			if im.Name != nil || p == "go.uber.org/cff" || strings.Contains(p, "-") {
+				continue
+			}
+			base := p[strings.LastIndex(p, "/")+1:]
+			c := cand{im: im}
+			ast.Inspect(fi.f, func(n ast.Node) bool {
+				if sel, ok := n.(*ast.SelectorExpr); ok {
+					if id, ok := sel.X.(*ast.Ident); ok && id.Name == base && id.Obj == nil {
+						c.uses = append(c.uses, id)
+					}
+				}
+				return true
+			})
+			if len(c.uses) >= 2 {
+				cands = append(cands, c)
+			}
+		}
+		if len(cands) == 0 {
+			return src, "", false
+		}
+		c := cands[pick(len(cands))]
+		path := strings.Trim(c.im.Path.Value, `"`)
+		base := path[strings.LastIndex(path, "/")+1:]
+		nn := base + "_y"
+		eds := []edit{{fi.off(c.im.End()), fi.off(c.im.End()), "\n" + nn + " " + c.im.Path.Value}}
+		if fi.importsUngrouped() {
+			eds = []edit{{fi.off(c.im.End()), fi.off(c.im.End()), "\nimport " + nn + " " + c.im.Path.Value}}
+		}
+		for i, id := range c.uses {
+			if i%2 == 1 {
+				eds = append(eds, edit{fi.off(id.Pos()), fi.off(id.End()), nn})
+			}
+		}
+		return applyEdits(src, eds), "dupimport:" + base, true
+	case "dotimport":
+		var cands []*ast.ImportSpec
+		for _, im := range fi.f.Imports {
+			if p := strings.Trim(im.Path.Value, `"`); im.Name == nil && p != "go.uber.org/cff" && p != "context" && !strings.Contains(p, "-") {
+				cands = append(cands, im)
+			}
+		}
+		if len(cands) == 0 {
+			return src, "", false
+		}
+		im := cands[pick(len(cands))]
+		path := strings.Trim(im.Path.Value, `"`)
+		base := path[strings.LastIndex(path, "/")+1:]
+		eds := []edit{{fi.off(im.Pos()), fi.off(im.Pos()), ". "}}
+		uses := 0
+		ast.Inspect(fi.f, func(n ast.Node) bool {
+			if sel, ok := n.(*ast.SelectorExpr); ok {
+				if id, ok := sel.X.(*ast.Ident); ok && id.Name == base && id.Obj == nil {
+					eds = append(eds, edit{fi.off(id.Pos()), fi.off(sel.Sel.Pos()), ""})
+					uses++
+				}
+			}
+			return true
+		})
+		if uses == 0 {
+			return src, "", false // (the package name may differ from the path's last element)
+		}
+		return applyEdits(src, eds), "dotimport:" + base, true
 	case "block":
 		type cand struct {
 			s   ast.Stmt
